@@ -21,7 +21,7 @@ def sh(cmd, cwd=None, timeout=1800, env=None):
 def main():
     pid, var = sys.argv[1], sys.argv[2]
     checks = sys.argv[3].split(",") if len(sys.argv) > 3 and not sys.argv[3].startswith("--") else [pid]
-    src = "/tmp/mut/out%s-%s" % ("2" if var in ("C", "D") else "", pid)
+    src = "/tmp/mut/out%s-%s" % ({"C": "2", "D": "2", "E": "3", "F": "3"}.get(var, ""), pid)
     diff = os.path.join(src, var + ".diff")
     demo = os.path.join(src, var + "_demo_test.go")
     wt = "/tmp/mt-%s-%s" % (pid, var)
@@ -36,6 +36,12 @@ def main():
         res["demo_passes_without_change"] = rc0 == 0
         os.remove(os.path.join(wt, "zz_demo_test.go"))
         rc, out = sh(["git", "apply", diff], cwd=wt)
+        if rc != 0:
+            # the tree has moved since the change was written: let git merge it
+            rc, out = sh(["git", "apply", "--3way", diff], cwd=wt)
+            if rc == 0:
+                sh(["git", "reset", "-q"], cwd=wt)
+                res["applied_with_3way"] = True
         res["applies"] = rc == 0
         if rc != 0:
             res["apply_log"] = out[-500:]
